@@ -222,6 +222,46 @@ def replay_fault(ctx, image, sizes, windows):
 CHECKS["faults"] = replay_fault
 
 
+def check_cache_api(ctx, backend, calls):
+    """sequences of cache_configure()/cache_info()/cache_clear() interleaved with URL work: only ValueError/TypeError may ever be raised"""
+    import warnings
+    Y = ctx.yarl(backend, "K")
+    P = Probe(ctx, Y, "cache-api")
+    with warnings.catch_warnings():
+        warnings.simplefilter("ignore")
+        try:
+            for c in calls:
+                if c[0] == "configure":
+                    P.call("cache_configure(%r)" % (c[1],), lambda: Y.mod.cache_configure(**c[1]))
+                elif c[0] == "info":
+                    P.call("cache_info()", Y.mod.cache_info)
+                elif c[0] == "clear":
+                    P.call("cache_clear()", Y.mod.cache_clear)
+                else:
+                    P.call("URL work", lambda: (Y.URL("http://%s/p" % c[1]).with_host(c[1]).host, Y.URL.build(scheme="http", host=c[1]).human_repr()))
+        finally:
+            try:
+                Y.mod.cache_configure()
+            except Exception:  # noqa: BLE001
+                # a broken cache_configure() must not poison the rest of the shard: re-import a fresh copy next time
+                from .. import backends as _b
+                _b._loaded.pop(Y.name, None)
+    ctx.case(any(c[0] == "configure" for c in calls), label="cache-api", key=("cache-api", backend, json.dumps(calls, sort_keys=True)))
+
+
+CHECKS["cache_api"] = check_cache_api
+
+
+def cache_api(ctx, backend, n):
+    sizes = st.sampled_from([0, 1, 2, 64, None, 256])
+    kw = st.fixed_dictionaries({}, optional={"idna_encode_size": sizes, "idna_decode_size": sizes, "encode_host_size": sizes, "ip_address_size": sizes, "host_validate_size": sizes})
+    call = st.one_of(st.tuples(st.just("configure"), kw).map(list), st.just(["info"]), st.just(["clear"]), st.tuples(st.just("work"), st.sampled_from(["h.example", "пример.рф", "::1", "1.2.3.4", "☃.net"])).map(list))
+    ctx.given("cache_api", {"calls": st.lists(call, min_size=2, max_size=8)}, max_examples=n, fixed={"backend": backend})
+    for size in (0, 1, None, 64):
+        for name in ("idna_encode_size", "idna_decode_size", "encode_host_size"):
+            ctx.run("cache_api", backend=backend, calls=[["configure", {name: size}], ["info"], ["work", "пример.рф"], ["clear"], ["configure", {}], ["info"]])
+
+
 def fuzz_campaign(ctx, runs):
     """coverage-guided tier (atheris/libFuzzer): oracle inside the target, empty and seeded corpus; a failure is re-run through the ordinary case checker"""
     from .. import fuzz
@@ -234,6 +274,7 @@ def shards(tier, seed):
     out = []
     for b in ("py", "c"):
         out.append({"name": "hostile-%s" % b, "fn": "hostile_table", "kw": {"backend": b}})
+        out.append({"name": "cache-api-%s" % b, "fn": "cache_api", "kw": {"backend": b, "n": 300 if tier == "quick" else 20000}})
         out.append({"name": "huge-%s" % b, "fn": "huge", "kw": {"backend": b, "size": 20000 if tier == "quick" else 1000000}})
         for p in range(parts):
             out.append({"name": "gen-%s-%d" % (b, p), "fn": "generated", "kw": {"backend": b, "n": n, "part": p, "nparts": parts}})
